@@ -13,7 +13,7 @@ import functools
 from .values import sig
 from .driver import make_exc
 
-ASYNC_FLAVOURS = ("agen", "aclass", "aclass_noclose", "aplain")
+ASYNC_FLAVOURS = ("agen", "aclass", "aclass_noclose", "aplain", "agenlike")
 SYNC_FLAVOURS = ("list", "seq", "iter")
 SRC_FLAVOURS = ASYNC_FLAVOURS + SYNC_FLAVOURS
 FN_FLAVOURS = ("def", "async", "partial", "obj", "objaw")
@@ -180,6 +180,21 @@ class AClassSource(SourceBase):
     obj = property(lambda self: self)
 
 
+class AGenLikeSource(AClassSource):
+    """Class based iterator offering the whole generator interface (aclose, asend, athrow) without being
+    an async generator.  The library has no business sending or throwing into a source it was given:
+    every such call is logged ("asend" / "athrow" events)."""
+
+    async def asend(self, value):
+        self.ctx.ev("asend", self.name)
+        return await self.__anext__()
+
+    async def athrow(self, typ, val=None, tb=None):
+        self.ctx.ev("athrow", self.name, getattr(typ, "__name__", type(typ).__name__))
+        self.failed = True
+        raise typ if isinstance(typ, BaseException) else typ()
+
+
 class AClassNoCloseSource(SourceBase):
     """Class based async iterator WITHOUT aclose/asend/athrow: never owed a close."""
 
@@ -284,6 +299,7 @@ _SRC_CLASSES = {
     "aclass": AClassSource,
     "aclass_noclose": AClassNoCloseSource,
     "aplain": APlainSource,
+    "agenlike": AGenLikeSource,
     "list": ListSource,
     "seq": SeqSource,
     "iter": SyncSource,
